@@ -82,9 +82,13 @@ class Ctx:
 
     # -- reporting ------------------------------------------------------
     def ok(self, rule, key, where, msg, detail=None, nontrivial=False, kind="N"):
+        if rule is None:
+            return
         self.obs.append(Ob(rule, key, "ok", where, msg, detail, nontrivial, kind))
 
     def fail(self, rule, key, where, msg, detail=None, kind="N"):
+        if rule is None:
+            return
         self.obs.append(Ob(rule, key, "fail", where, msg, detail, True, kind))
 
     def boundary(self, rule, key, where, msg, detail=None):
@@ -99,6 +103,8 @@ class Ctx:
     def floor(self, rule, name, n, minimum, where="-"):
         """fail closed when a must-exist construct is missing (vacuity guard)"""
         self.counts[name] = n
+        if rule is None:
+            return n >= minimum
         if n < minimum:
             self.fail(rule, "floor:%s" % name, where,
                       "anchor count for '%s' is %d, below the confirmed minimum %d: the construct this rule "
@@ -107,6 +113,8 @@ class Ctx:
         return True
 
     def require(self, rule, name, obj, where="-", what=None):
+        if (obj is None or obj == [] or obj is False) and rule is None:
+            return False
         if obj is None or obj == [] or obj is False:
             self.fail(rule, "anchor:%s" % name, where,
                       "required anchor '%s' not found%s (fail closed)" % (name, (": " + what) if what else ""))
